@@ -159,7 +159,18 @@ func (d *Document) writeJSONValue(buf *bytes.Buffer, value Value) error {
 			// Remove the extra newline that Encode adds
 			buf.Truncate(buf.Len() - 1)
 		} else {
-			buf.Write(quotes.WrapBytes(d.StringValueContentBytes(value.Ref)))
+			// The escape sequences of a GraphQL string are valid JSON escapes, but a raw
+			// control character (TAB is a SourceCharacter) is not valid inside a JSON string.
+			content := d.StringValueContentBytes(value.Ref)
+			buf.WriteByte('"')
+			for _, b := range content {
+				if b < 0x20 {
+					fmt.Fprintf(buf, "\\u%04x", b)
+					continue
+				}
+				buf.WriteByte(b)
+			}
+			buf.WriteByte('"')
 		}
 	case ValueKindList:
 		buf.WriteByte(literal.LBRACK_BYTE)
